@@ -67,7 +67,7 @@ def jobs(tier, seed):
             fixed = None
             if cls == 'value' and L > 8:
                 t0 = (seed * 5 + L * 3) % L; fixed = {i: NOTAB for i in range(L) if i != t0}
-            params = {'variants': [variant], 'fn': fn, 'cls': cls, 'L': L, 'tag': tag.replace('-dbg', ''), 'fixed': fixed, 'prop': 'C01', 'xcheck_every': 0, 'safety_only': True}
+            params = {'variants': [variant], 'fn': fn, 'cls': cls, 'L': L, 'tag': tag.replace('-dbg', ''), 'fixed': fixed, 'prop': 'C01', 'xcheck_every': 12, 'safety_only': True}
             jb = Job(f'scan-{tag}-{cls}-L{L}', 'mirse.props.c12.leaf_scan', params, T(tier, 60, 600), f'{fn} ({variant}), every buffer of {L} bytes: returns normally, no access outside the {L} bytes',
                      family=f'scan-{tag}-{cls}', groups=['ref'], mandatory=(L <= 17))
             jb.small = True; J.append(jb)
